@@ -35,14 +35,16 @@ import json
 import os
 import random
 import re
+import shutil
 import subprocess
 import sys
+import tempfile
 from concurrent.futures import ThreadPoolExecutor
 
 import s_compiler_common as K
 
 RULE = ("evaluation = one (program text, option set) pair; non-trivial = distinct pairs that have all 8 "
-        "observations (hash seeds 0,1,2,3,4711,random; forward/reverse/shuffled batch order; twice in a row; "
+        "observations (hash seeds 0,1,2,3,4711,random; forward/reverse/shuffled batch order; in the reverse batch read through compile_prolog_from_file from a path that held another program when it was compiled before; twice in a row; "
         "again after the rest of the batch), i.e. both the returned text and the debug stream were compared "
         "across processes, hash seeds and in-process histories")
 
@@ -70,9 +72,28 @@ _ADDR = re.compile(r"0x[0-9a-fA-F]+")
 _SHARED = []
 
 
-def observe(text, mask, reuse=False):
-    from yldprolog.compiler import compile_prolog_from_string
+def observe(text, mask, reuse=False, via_file=None):
+    from yldprolog.compiler import compile_prolog_from_string, compile_prolog_from_file
     o = opts_of(mask)
+    compile_ = compile_prolog_from_string
+    arg = text
+    if via_file is not None:
+        # the same text read from a file whose path was compiled before while it held ANOTHER program (a host that reloads
+        # edited scripts): the result is a function of the file's present text
+        path, before = via_file
+        try:
+            data = text.encode('utf8')
+            with open(path, 'wb') as f:
+                f.write(before.encode('utf8', 'replace'))
+            try:
+                compile_prolog_from_file(path, K.Ctx(current_source_file='earlier.P', outf=io.StringIO()))
+            except Exception:       # noqa: B902
+                pass
+            with open(path, 'wb') as f:
+                f.write(data)
+            compile_, arg = compile_prolog_from_file, path
+        except UnicodeEncodeError:
+            pass
     if reuse:
         # "the same options" are the same option VALUES: one options object serves the whole process and is set up before each
         # compilation; just before, it compiled the same text under other values (other file name, debug_filename flipped)
@@ -94,7 +115,7 @@ def observe(text, mask, reuse=False):
         ctx = K.Ctx(debug_filename=o["debug_filename"], debug_parser=o["debug_parser"], debug_generator=o["debug_generator"],
                     current_source_file=SOURCE_NAME, outf=io.StringIO())
     try:
-        ret = compile_prolog_from_string(text, ctx)
+        ret = compile_(arg, ctx)
         ok = True
     except BaseException as e:       # noqa: B902
         if isinstance(e, (KeyboardInterrupt, SystemExit)):
@@ -113,9 +134,11 @@ def worker():
     rng = random.Random(job.get("shuffle_seed", 0))
     out = {}
 
-    def obs(i, tag, reuse=False):
+    tmpdir = tempfile.mkdtemp(prefix='s_c18_')
+
+    def obs(i, tag, reuse=False, via_file=False):
         key, text, mask = items[i]
-        r = observe(text, mask, reuse)
+        r = observe(text, mask, reuse, (os.path.join(tmpdir, 'work.P'), items[i - 1][1]) if via_file else None)
         r["tag"] = tag
         out.setdefault(key, []).append(r)
     if mode == "fwd":
@@ -123,7 +146,7 @@ def worker():
             obs(i, job["tag"])
     elif mode == "rev":
         for i in reversed(order):
-            obs(i, job["tag"])
+            obs(i, job["tag"] + "/from-a-file-whose-path-held-another-program-when-it-was-compiled-before", via_file=True)
     elif mode == "shuf":
         rng.shuffle(order)
         for i in order:
@@ -138,6 +161,7 @@ def worker():
             obs(i, job["tag"] + "/first")
         for i in order:
             obs(i, job["tag"] + "/after-%d-others" % (len(order) - 1))
+    shutil.rmtree(tmpdir, ignore_errors=True)
     json.dump({"hashseed_env": os.environ.get("PYTHONHASHSEED"), "obs": out}, sys.stdout)
 
 
